@@ -190,3 +190,38 @@ Proof.
   apply in_map_iff in I as (o & E & _). destruct o as [v| |]; cbn [omap] in E; try discriminate.
   injection E as <-. apply ocanon_oenc.
 Qed.
+
+(** the final object of an extended history *)
+Theorem xhistory_spec c ops : xctor_wf c -> Forall xop_wf ops ->
+  xhistory P c ops = omap (oenc (fst (sxhistory c ops))) (snd (sxhistory c ops)).
+Proof.
+  intros Hc Hw. unfold xhistory, xstart, sxhistory.
+  rewrite xconstruct_spec by exact Hc.
+  pose proof (sxconstruct_nonneg c) as N.
+  destruct (sxconstruct c) as [k ov]. cbn [fst snd] in *.
+  destruct ov as [v| |]; cbn [omap bind]; try reflexivity.
+  assert (Hn : k = KU -> 0 <= v) by (intros K; apply (N v Hc K eq_refl)).
+  rewrite guard_oenc by exact Hn.
+  destruct (sguard v) as [v0| |] eqn:G; cbn [omap bind]; try reflexivity.
+  apply sguard_ret in G as [-> F].
+  apply (run_spec P ok); auto. apply ops_ok_of_wf. apply xops_base_wf. exact Hw.
+Qed.
+
+Corollary xhistory_canon c ops s : xctor_wf c -> Forall xop_wf ops ->
+  xhistory P c ops = Ret s -> ocanon s.
+Proof.
+  intros Hc Hw E. rewrite xhistory_spec in E by auto.
+  destruct (snd (sxhistory c ops)) as [v| |]; cbn [omap] in E; try discriminate.
+  injection E as <-. apply ocanon_oenc.
+Qed.
+
+(** equal integers obtained through ANY two extended histories are identical objects (hence equal
+    under ==, cmp, Hash and every export: HistProofs.oeq_spec, ocmp_spec, hash_fun, export_fun) *)
+Theorem xindistinguishable ca opsa cb opsb a b :
+  xctor_wf ca -> Forall xop_wf opsa -> xctor_wf cb -> Forall xop_wf opsb ->
+  xhistory P ca opsa = Ret a -> xhistory P cb opsb = Ret b ->
+  okind a = okind b -> oval a = oval b -> a = b.
+Proof.
+  intros Wa Oa Wb Ob Ea Eb K V.
+  apply ocanon_inj; [eapply (xhistory_canon ca opsa); eauto|eapply (xhistory_canon cb opsb); eauto|exact K|exact V].
+Qed.
